@@ -1,4 +1,8 @@
 import BoboVerif.Props.C04
+import BoboVerif.Model.Tcp
+import BoboVerif.Lemmas.Tcp
+import BoboVerif.Props.C15
+import BoboVerif.Lemmas.TcpAccount
 /-!
 C06 — Link failures lose nothing: backlog or full resync restores consistency.
 
@@ -92,3 +96,365 @@ example : (run (init 2) [.say 0 (active 1 1), .say 0 halted, .resync 0 1 false, 
     .deliver 0 1 0 true]).know 1 = halted := by decide
 
 end Bobo.Net
+
+
+/-! ---------------------------------------------------------------------------------------------
+## Transport side of C06: the accounting of ONE pass of the outgoing loop (`Bobo.Tcp.outIter`)
+
+Model/Tcp.lean; helper lemmas in Lemmas/Tcp.lean and Lemmas/TcpAccount.lean.  Sequential pass
+(other threads act between passes); all devices, every outcome vector, all clocks and periods,
+any queue contents.  `e` is the dict entry of device `j` before the pass; "the wire to `j`" is
+`(outIter …).2.find? (·.peer == j)` (every device gets at most one message per pass).
+
+When is the queue popped?  `cache_sync` is resolved at the first SYNC branch of the send phase:
+the head is popped iff at least one SYNC is handed to the wire (`outIter_queue_exact`), and with
+a non-empty queue that is iff some other device is not in the resync period (`pop_iff`).
+--------------------------------------------------------------------------------------------- -/
+namespace Bobo.Tcp
+variable {Rec : Type}
+
+/-- the device is in the resync period at the decision of this pass. -/
+def InResync (cfg : Periods) (now : Int) (p : Peer Rec) : Prop := now - p.lastComms ≥ cfg.periodResync
+
+/-- the three backlog lists. -/
+def stashOf (p : Peer Rec) : List Rec × List Rec × List Rec := (p.stashC, p.stashH, p.stashU)
+
+/-- what the pass does for a device other than self, in terms of the tree's decision for it. -/
+theorem pass_for_device (s : TState Rec) (now : Int) (snap : Msg Rec) (outcome : Nat → Nat × Int)
+    (j : Nat) (e : String × Peer Rec) (he : s.peers[j]? = some e) (hself : e.1 ≠ s.self) :
+    (outIter s now snap outcome).2.find? (fun w => w.peer == j) =
+      (decideOne s.cfg now s.queue.isEmpty e.2).map (fun t => wireOf snap s.queue j (t, e.2.resets) e) ∧
+    (outIter s now snap outcome).1.peers[j]? =
+      some (match decideOne s.cfg now s.queue.isEmpty e.2 with
+            | none => e
+            | some t => entryAfter snap s.queue outcome j (t, e.2.resets) e) := by
+  have hw := outIter_wire s now snap outcome j
+  have hp := outIter_peer s now snap outcome j
+  rw [he] at hw hp
+  simp only [Option.bind_some, Option.map_some] at hw hp
+  have hd : decideEntry s.cfg s.self now s.queue.isEmpty e
+      = (decideOne s.cfg now s.queue.isEmpty e.2).map (fun t => (t, e.2.resets)) := by
+    simp [decideEntry, hself]
+  rw [hd] at hw hp
+  refine ⟨?_, ?_⟩
+  · rw [hw]; cases decideOne s.cfg now s.queue.isEmpty e.2 <;> rfl
+  · rw [hp]; cases decideOne s.cfg now s.queue.isEmpty e.2 <;> rfl
+
+/-- **`outIter_accounts`**: the queue is non-empty, `q` is its head.  For EVERY device `j` other than
+self exactly one of three cases holds (the guards are mutually exclusive) — there is no fourth:
+(a) not in the resync period, send reported successful: a SYNC carrying `q ++ (j's backlog)` was on
+    the wire to `j`, and `j`'s backlog is empty afterwards;
+(b) not in the resync period, send reported failed (timeout or error, including "failed after
+    delivery"): the same SYNC was attempted, and `q`'s three lists were appended to `j`'s backlog
+    (old backlog kept, in order), `last_comms` unchanged;
+(c) `j` is in the resync period: nothing, or a RESYNC carrying the snapshot, was sent to `j` (backlog
+    dropped in that case; on failure `last_comms` unchanged, so `j` stays in the resync period —
+    `resync_pending_persists`, `outage_then_resync_seq`).
+In particular a device in the PING period takes the SYNC branch when the queue is non-empty. -/
+theorem outIter_accounts (s : TState Rec) (now : Int) (snap : Msg Rec) (outcome : Nat → Nat × Int)
+    (q : Msg Rec) (rest : List (Msg Rec)) (hq : s.queue = q :: rest)
+    (j : Nat) (e : String × Peer Rec) (he : s.peers[j]? = some e) (hself : e.1 ≠ s.self) :
+    let r := outIter s now snap outcome
+    let w := r.2.find? (fun w => w.peer == j)
+    let syncWire : Wire Rec := ⟨j, .sync, flagsOf e.2, ⟨q.c ++ e.2.stashC, q.h ++ e.2.stashH, q.u ++ e.2.stashU⟩⟩
+    (¬ InResync s.cfg now e.2 ∧ (outcome j).1 = 0 ∧ w = some syncWire ∧
+      ∃ p', r.1.peers[j]? = some (e.1, p') ∧ stashOf p' = ([], [], []) ∧ p'.lastComms = max 0 (outcome j).2) ∨
+    (¬ InResync s.cfg now e.2 ∧ (outcome j).1 ≠ 0 ∧ w = some syncWire ∧
+      ∃ p', r.1.peers[j]? = some (e.1, p') ∧
+        stashOf p' = (e.2.stashC ++ q.c, e.2.stashH ++ q.h, e.2.stashU ++ q.u) ∧ p'.lastComms = e.2.lastComms) ∨
+    (InResync s.cfg now e.2 ∧
+      ((w = none ∧ r.1.peers[j]? = some e) ∨
+       (w = some ⟨j, .resync, flagsOf e.2, snap⟩ ∧
+         ∃ p', r.1.peers[j]? = some (e.1, p') ∧ stashOf p' = ([], [], []) ∧
+           ((outcome j).1 ≠ 0 → p'.lastComms = e.2.lastComms)))) := by
+  intro r w syncWire
+  obtain ⟨hw, hp⟩ := pass_for_device s now snap outcome j e he hself
+  have hqe : s.queue.isEmpty = false := by rw [hq]; rfl
+  have hcache : cacheOf s.queue = q := by rw [hq]; rfl
+  by_cases hres : InResync s.cfg now e.2
+  · right; right
+    refine ⟨hres, ?_⟩
+    have hd : decideOne s.cfg now s.queue.isEmpty e.2
+        = if now - e.2.lastAttempt ≥ s.cfg.attemptResync then some .resync else none := by
+      unfold decideOne; exact resync_only _ _ _ _ _ hres
+    by_cases ha : now - e.2.lastAttempt ≥ s.cfg.attemptResync
+    · right
+      rw [hd, if_pos ha] at hw hp
+      refine ⟨by simpa [wireOf, payload] using hw, _, hp, ?_, ?_⟩
+      · by_cases herr : (outcome j).1 = 0
+        · have := (book_success .resync e.2.resets snap (cacheOf s.queue) (outcome j).2 e.2).2.2.2.2.2.2 (by decide)
+          simp only [stashOf]; rw [herr]; simp [this]
+        · have := (book_failure .resync e.2.resets snap (cacheOf s.queue) _ herr (outcome j).2 e.2).2.2.2.2.2.1 rfl
+          simp only [stashOf]; simp [this]
+      · intro herr
+        exact (book_failure .resync e.2.resets snap (cacheOf s.queue) _ herr (outcome j).2 e.2).1
+    · left
+      rw [hd, if_neg ha] at hw hp
+      exact ⟨hw, hp⟩
+  · have hd : decideOne s.cfg now s.queue.isEmpty e.2 = some .sync := by
+      unfold decideOne
+      rw [sync_when_work]
+      refine ⟨by unfold InResync at hres; omega, Or.inl hqe⟩
+    rw [hd] at hw hp
+    have hwire : w = some syncWire := by
+      simpa [wireOf, payload, prep, hcache] using hw
+    by_cases herr : (outcome j).1 = 0
+    · left
+      refine ⟨hres, herr, hwire, _, hp, ?_, ?_⟩
+      · have := (book_success .sync e.2.resets snap (cacheOf s.queue) (outcome j).2 e.2).2.2.2.2.2.2 (by decide)
+        simp only [stashOf]; rw [herr]; simp [this]
+      · have := (book_success .sync e.2.resets snap (cacheOf s.queue) (outcome j).2 e.2).1
+        rw [herr]; simpa using this
+    · right; left
+      refine ⟨hres, herr, hwire, _, hp, ?_, ?_⟩
+      · have := (book_failure .sync e.2.resets snap (cacheOf s.queue) _ herr (outcome j).2 e.2).2.2.2.2.1 rfl
+        rw [hcache] at this
+        simpa [stashOf, hcache, entryAfter] using this
+      · exact (book_failure .sync e.2.resets snap (cacheOf s.queue) _ herr (outcome j).2 e.2).1
+
+/-- **when the pop happens**: with a non-empty queue `q :: rest`, the pass leaves `rest` iff some device
+other than self is not in the resync period (it then takes the SYNC branch, which resolves `cache_sync`);
+otherwise the queue is untouched (the item waits; devices in the resync period get the snapshot instead). -/
+theorem pop_iff (s : TState Rec) (now : Int) (snap : Msg Rec) (outcome : Nat → Nat × Int)
+    (q : Msg Rec) (rest : List (Msg Rec)) (hq : s.queue = q :: rest) :
+    ((outIter s now snap outcome).1.queue = rest ↔
+      ∃ (j : Nat) (e : String × Peer Rec), s.peers[j]? = some e ∧ e.1 ≠ s.self ∧ ¬ InResync s.cfg now e.2) ∧
+    ((outIter s now snap outcome).1.queue = rest ∨ (outIter s now snap outcome).1.queue = q :: rest) := by
+  have hex := outIter_queue_exact s now snap outcome
+  rw [hq] at hex
+  simp only [List.tail_cons] at hex
+  have hne : (q :: rest) ≠ rest := by
+    intro h; have := congrArg List.length h; simp at this
+  refine ⟨⟨?_, ?_⟩, ?_⟩
+  · intro hrest
+    rcases hex with ⟨_, hqq⟩ | ⟨⟨w, hw, hwt⟩, _⟩
+    · rw [hrest] at hqq; exact absurd hqq.symm hne
+    · obtain ⟨e, ts, hpe, hde, hweq⟩ := outIter_wire_of_mem s now snap outcome w hw
+      refine ⟨w.peer, e, hpe, ?_, ?_⟩
+      · intro hs; simp [decideEntry, hs] at hde
+      · have hts : ts.1 = .sync := by rw [hweq] at hwt; exact hwt
+        unfold decideEntry at hde
+        split at hde
+        · cases hde
+        · cases hdo : decideOne s.cfg now s.queue.isEmpty e.2 with
+          | none => rw [hdo] at hde; cases hde
+          | some t =>
+            rw [hdo] at hde
+            simp only [Option.map_some, Option.some.injEq] at hde
+            rw [← hde] at hts
+            simp only at hts
+            subst hts
+            unfold decideOne at hdo
+            rw [sync_when_work] at hdo
+            unfold InResync; omega
+  · rintro ⟨j, e, he, hself, hres⟩
+    rcases outIter_accounts s now snap outcome q rest hq j e he hself with h | h | h
+    · rcases hex with ⟨hno, _⟩ | ⟨_, hqq⟩
+      · exact absurd rfl (hno _ (mem_of_find_wire h.2.2.1))
+      · exact hqq
+    · rcases hex with ⟨hno, _⟩ | ⟨_, hqq⟩
+      · exact absurd rfl (hno _ (mem_of_find_wire h.2.2.1))
+      · exact hqq
+    · exact absurd h.1 hres
+  · rcases hex with ⟨_, hqq⟩ | ⟨_, hqq⟩
+    · exact Or.inr hqq
+    · exact Or.inl hqq
+
+/-- **`stash_only_grows_by_failed_sync_and_is_cleared_only_on_success_or_resync`**: the backlog of `j`
+after the pass is unchanged (nothing sent, or a PING), or empty (delivered SYNC, or any RESYNC attempt),
+or the old backlog followed by the pass's queue item (failed SYNC) — nothing else. -/
+theorem stash_only_grows_by_failed_sync_and_is_cleared_only_on_success_or_resync
+    (s : TState Rec) (now : Int) (snap : Msg Rec) (outcome : Nat → Nat × Int)
+    (j : Nat) (e : String × Peer Rec) (he : s.peers[j]? = some e) (hself : e.1 ≠ s.self) :
+    let r := outIter s now snap outcome
+    let w := r.2.find? (fun w => w.peer == j)
+    ∃ p', r.1.peers[j]? = some (e.1, p') ∧
+      (((w = none ∨ ∃ x, w = some x ∧ x.typ = .ping) ∧ stashOf p' = stashOf e.2) ∨
+       ((∃ x, w = some x ∧ ((x.typ = .sync ∧ (outcome j).1 = 0) ∨ x.typ = .resync)) ∧ stashOf p' = ([], [], [])) ∨
+       ((∃ x, w = some x ∧ x.typ = .sync ∧ (outcome j).1 ≠ 0) ∧
+         stashOf p' = (e.2.stashC ++ (cacheOf s.queue).c, e.2.stashH ++ (cacheOf s.queue).h,
+                       e.2.stashU ++ (cacheOf s.queue).u))) := by
+  intro r w
+  obtain ⟨hw, hp⟩ := pass_for_device s now snap outcome j e he hself
+  cases hd : decideOne s.cfg now s.queue.isEmpty e.2 with
+  | none =>
+    rw [hd] at hw hp
+    exact ⟨e.2, hp, Or.inl ⟨Or.inl hw, rfl⟩⟩
+  | some t =>
+    rw [hd] at hw hp
+    refine ⟨_, hp, ?_⟩
+    simp only [Option.map_some] at hw
+    by_cases herr : (outcome j).1 = 0
+    · have hs := book_success t e.2.resets snap (cacheOf s.queue) (outcome j).2 e.2
+      cases t with
+      | ping =>
+        left; refine ⟨Or.inr ⟨_, hw, rfl⟩, ?_⟩
+        have := hs.2.2.2.2.2.1 rfl
+        simp only [stashOf]; rw [herr]; simp [this]
+      | sync =>
+        right; left; refine ⟨⟨_, hw, Or.inl ⟨rfl, herr⟩⟩, ?_⟩
+        have := hs.2.2.2.2.2.2 (by decide)
+        simp only [stashOf]; rw [herr]; simp [this]
+      | resync =>
+        right; left; refine ⟨⟨_, hw, Or.inr rfl⟩, ?_⟩
+        have := hs.2.2.2.2.2.2 (by decide)
+        simp only [stashOf]; rw [herr]; simp [this]
+    · have hf := book_failure t e.2.resets snap (cacheOf s.queue) _ herr (outcome j).2 e.2
+      cases t with
+      | ping =>
+        left; refine ⟨Or.inr ⟨_, hw, rfl⟩, ?_⟩
+        have := hf.2.2.2.2.2.2 rfl
+        simp only [stashOf]; simp [this]
+      | sync =>
+        right; right; refine ⟨⟨_, hw, rfl, herr⟩, ?_⟩
+        have := hf.2.2.2.2.1 rfl
+        simp only [stashOf]; simp [this]
+      | resync =>
+        right; left; refine ⟨⟨_, hw, Or.inr rfl⟩, ?_⟩
+        have := hf.2.2.2.2.2.1 rfl
+        simp only [stashOf]; simp [this]
+
+/-- **`queue_popped_at_most_once`**: however many devices take the SYNC branch. -/
+theorem queue_popped_at_most_once (s : TState Rec) (now : Int) (snap : Msg Rec) (outcome : Nat → Nat × Int) :
+    (outIter s now snap outcome).1.queue = s.queue ∨ (outIter s now snap outcome).1.queue = s.queue.tail :=
+  outIter_queue s now snap outcome
+
+/-- **`nothing_popped_without_sync`**: if no device took the SYNC branch the queue is unchanged; and
+if one did, the head is gone (and every SYNC of this pass carried it: `outIter_accounts`). -/
+theorem nothing_popped_without_sync (s : TState Rec) (now : Int) (snap : Msg Rec) (outcome : Nat → Nat × Int) :
+    ((∀ w ∈ (outIter s now snap outcome).2, w.typ ≠ .sync) → (outIter s now snap outcome).1.queue = s.queue) ∧
+    ((∃ w ∈ (outIter s now snap outcome).2, w.typ = .sync) → (outIter s now snap outcome).1.queue = s.queue.tail) := by
+  rcases outIter_queue_exact s now snap outcome with ⟨hno, hq⟩ | ⟨⟨w, hw, hwt⟩, hq⟩
+  · exact ⟨fun _ => hq, fun ⟨w, hw, hwt⟩ => absurd hwt (hno w hw)⟩
+  · exact ⟨fun hno => absurd hwt (hno w hw), fun _ => hq⟩
+
+/-- **`resync_drops_backlog_sends_snapshot`**: a RESYNC attempt to `j` clears `j`'s backlog BEFORE the
+send (`prep`), the payload is exactly the snapshot given to the pass, the backlog is empty after the
+pass whatever the outcome, and on failure `last_comms` is unchanged. -/
+theorem resync_drops_backlog_sends_snapshot (s : TState Rec) (now : Int) (snap : Msg Rec) (outcome : Nat → Nat × Int)
+    (j : Nat) (e : String × Peer Rec) (he : s.peers[j]? = some e) (hself : e.1 ≠ s.self) (x : Wire Rec)
+    (hx : (outIter s now snap outcome).2.find? (fun w => w.peer == j) = some x) (ht : x.typ = .resync) :
+    x.payload = snap ∧ stashOf (prep .resync e.2) = ([], [], []) ∧
+    ∃ p', (outIter s now snap outcome).1.peers[j]? = some (e.1, p') ∧ stashOf p' = ([], [], []) ∧
+      ((outcome j).1 ≠ 0 → p'.lastComms = e.2.lastComms) ∧
+      ((outcome j).1 = 0 → p'.lastComms = max 0 (outcome j).2) := by
+  obtain ⟨hw, hp⟩ := pass_for_device s now snap outcome j e he hself
+  rw [hx] at hw
+  cases hd : decideOne s.cfg now s.queue.isEmpty e.2 with
+  | none => rw [hd] at hw; cases hw
+  | some t =>
+    rw [hd] at hw hp
+    simp only [Option.map_some, Option.some.injEq] at hw
+    have : t = .resync := by rw [hw] at ht; exact ht
+    subst this
+    refine ⟨by rw [hw]; rfl, rfl, _, hp, ?_, ?_, ?_⟩
+    · by_cases herr : (outcome j).1 = 0
+      · have := (book_success .resync e.2.resets snap (cacheOf s.queue) (outcome j).2 e.2).2.2.2.2.2.2 (by decide)
+        simp only [stashOf]; rw [herr]; simp [this]
+      · have := (book_failure .resync e.2.resets snap (cacheOf s.queue) _ herr (outcome j).2 e.2).2.2.2.2.2.1 rfl
+        simp only [stashOf]; simp [this]
+    · intro herr
+      exact (book_failure .resync e.2.resets snap (cacheOf s.queue) _ herr (outcome j).2 e.2).1
+    · intro herr
+      have := (book_success .resync e.2.resets snap (cacheOf s.queue) (outcome j).2 e.2).1
+      rw [herr]; simpa using this
+
+/-- **`resync_pending_persists`** (the `pending` mark of Lemmas/Net.lean on the code side): a device in
+the resync period whose RESYNC failed, or that was sent nothing, is still in the resync period at
+every later clock. -/
+theorem resync_pending_persists (s : TState Rec) (now : Int) (snap : Msg Rec) (outcome : Nat → Nat × Int)
+    (j : Nat) (e : String × Peer Rec) (he : s.peers[j]? = some e) (hself : e.1 ≠ s.self)
+    (hres : InResync s.cfg now e.2) (hfail : (outcome j).1 ≠ 0) :
+    ∃ p', (outIter s now snap outcome).1.peers[j]? = some (e.1, p') ∧
+      ∀ now', now' ≥ now → InResync s.cfg now' p' := by
+  obtain ⟨_, hp⟩ := pass_for_device s now snap outcome j e he hself
+  unfold InResync at hres ⊢
+  cases hd : decideOne s.cfg now s.queue.isEmpty e.2 with
+  | none =>
+    rw [hd] at hp
+    exact ⟨e.2, hp, fun now' hn => by omega⟩
+  | some t =>
+    rw [hd] at hp
+    refine ⟨_, hp, ?_⟩
+    intro now' hn
+    rw [(book_failure t e.2.resets snap (cacheOf s.queue) _ hfail (outcome j).2 e.2).1]; omega
+
+/-- **`first_contact_after_outage_is_resync`**: if `j` is in the resync period at the decision, the
+message sent to `j` in this pass, if any, is a RESYNC — never SYNC or PING, whatever the queue and
+the backlog hold. -/
+theorem first_contact_after_outage_is_resync (s : TState Rec) (now : Int) (snap : Msg Rec) (outcome : Nat → Nat × Int)
+    (j : Nat) (e : String × Peer Rec) (he : s.peers[j]? = some e) (hself : e.1 ≠ s.self)
+    (hres : InResync s.cfg now e.2) (x : Wire Rec)
+    (hx : (outIter s now snap outcome).2.find? (fun w => w.peer == j) = some x) :
+    x.typ = .resync ∧ x.payload = snap := by
+  obtain ⟨hw, _⟩ := pass_for_device s now snap outcome j e he hself
+  rw [hx] at hw
+  have hd : decideOne s.cfg now s.queue.isEmpty e.2
+      = if now - e.2.lastAttempt ≥ s.cfg.attemptResync then some .resync else none := by
+    unfold decideOne; exact resync_only _ _ _ _ _ hres
+  rw [hd] at hw
+  split at hw
+  · simp only [Option.map_some, Option.some.injEq] at hw
+    rw [hw]; exact ⟨rfl, rfl⟩
+  · cases hw
+
+/-- … and for every later pass until one succeeds: in any sequence of passes, queue insertions and
+incoming messages after an outage (`last_comms j ≤ L`, every pass clock `≥ L + period_resync`),
+every message to `j` is a RESYNC up to and including the first one delivered. -/
+theorem outage_then_resync_seq (s : TState Rec) (steps : List (Step Rec)) (j : Nat) (L : Int) (hL : 0 ≤ L)
+    (hcl : ClocksPast s.cfg L steps) (h0 : ∀ e, s.peers[j]? = some e → e.2.lastComms ≤ L) :
+    ResyncFirst true (jlog j (run s steps)) :=
+  outage_aux j L hL steps s true hcl (fun _ => h0)
+
+/-! ### non-vacuity: one pass, three peers — one delivered, one failed, one in the resync period -/
+
+/-- "a" with peers b (in contact, backlog s1), c (in the ping period, no backlog), d (60 s of silence, backlog s9);
+default periods; two queued changes. -/
+def c06State : TState Nat :=
+  ⟨"a", Periods.default, [⟨[1], [], [2]⟩, ⟨[3], [], []⟩],
+   [("a", Peer.init false), ("b", ⟨995, 995, 0, false, [11], [], []⟩), ("c", ⟨960, 960, 0, false, [], [], []⟩),
+    ("d", ⟨940, 900, 0, false, [], [99], []⟩)]⟩
+
+/-- b: delivered; c: times out; d: RESYNC fails. -/
+def c06Outcome : Nat → Nat × Int
+  | 1 => (0, 1001)
+  | 2 => (1, 1003)
+  | _ => (2, 1004)
+
+example :
+    let r := outIter c06State 1000 ⟨[7], [8], []⟩ c06Outcome
+    r.2 = [⟨1, .sync, 0, ⟨[1, 11], [], [2]⟩⟩, ⟨2, .sync, 0, ⟨[1], [], [2]⟩⟩, ⟨3, .resync, 0, ⟨[7], [8], []⟩⟩] ∧
+    r.1.queue = [⟨[3], [], []⟩] ∧
+    r.1.peers = [("a", Peer.init false), ("b", ⟨1001, 1001, 0, false, [], [], []⟩),
+      ("c", ⟨960, 1003, 0, false, [1], [], [2]⟩), ("d", ⟨940, 1004, 0, false, [], [], []⟩)] := by decide
+
+example : ¬ InResync c06State.cfg 1000 (⟨995, 995, 0, false, [11], [], []⟩ : Peer Nat) ∧
+    ¬ InResync c06State.cfg 1000 (⟨960, 960, 0, false, [], [], []⟩ : Peer Nat) ∧
+    InResync c06State.cfg 1000 (⟨940, 900, 0, false, [], [99], []⟩ : Peer Nat) := by
+  unfold InResync; decide
+
+/-- all devices in the resync period: the queue item waits. -/
+example : (outIter { c06State with peers := [("a", Peer.init false), ("d", ⟨940, 900, 0, false, [], [99], []⟩)] }
+    1000 ⟨[7], [8], []⟩ c06Outcome).1.queue = c06State.queue := by decide
+
+/-! ### F17 (concurrency observation, NOT a statement about the sequential pass)
+
+`on_decider_update` takes `_lock_local`, the decision phase takes `_lock_in_out`: a local change can be
+queued after the decision phase has released its lock and before the send phase resolves `cache_sync`.
+If the decision saw an empty queue, only devices with a due backlog were selected; the first of them
+pops the new item and sends it — to the selected devices only.  The others neither receive it nor get
+it appended to their backlog, and the queue is empty afterwards.  Witness on the model (`decidePhase`,
+`push`, `sendPhase` composed by hand): b has a due backlog, c is in contact with nothing to send. -/
+theorem f17_push_between_phases_witness :
+    let s : TState Nat := ⟨"a", Periods.default, [],
+      [("a", Peer.init false), ("b", ⟨1000, 990, 0, false, [5], [], []⟩), ("c", ⟨1000, 1000, 0, false, [], [], []⟩)]⟩
+    let outlist := decidePhase s.cfg s.self 1001 s.queue.isEmpty s.peers      -- decision phase: queue empty
+    let s' := push s ⟨[6], [], []⟩                                             -- on_decider_update in between
+    let st := sendPhase Msg.empty (fun _ => (0, 1001)) ⟨s'.peers, s'.queue, none, []⟩ outlist
+    outlist = [(1, .sync, 0)] ∧
+    st.wires = [⟨1, .sync, 0, ⟨[6, 5], [], []⟩⟩] ∧                             -- item 6 goes to b only
+    st.queue = [] ∧                                                             -- and is gone from the queue
+    st.peers[2]? = some ("c", ⟨1000, 1000, 0, false, [], [], []⟩) := by        -- c: not sent, not stashed
+  decide
+
+end Bobo.Tcp
